@@ -138,3 +138,70 @@ func TestEnumeratePadding(t *testing.T) {
 		})
 	}
 }
+
+// Hostile parameter-set units, enumerated: the real SPS / PPS (/ VPS) cut at
+// EVERY length, with one bit flipped at every byte, and 1..3 bytes long; as a
+// single NAL unit packet and inside an aggregate with a slice; as the very first
+// packet of the stream and at a later position, where the stream's metadata is
+// complete (from the SDP's sprop sets, or — third variant — from in-band sets of
+// a stream without sprop sets). Besides continuation, the converted output must
+// keep carrying the legitimate sets (parameterSetIdentity).
+func TestEnumerateHostileParameterSets(t *testing.T) {
+	evid.Rule(ruleText)
+	for _, codec := range []esgen.Codec{esgen.H264, esgen.H265} {
+		reals := [][]byte{esgen.RealH264SPS, esgen.RealH264PPS}
+		slice := []byte{0x41, 0x9a, 0x02, 0x81, 0x82}
+		agg := rtppack.H264StapA
+		if codec == esgen.H265 {
+			reals = [][]byte{esgen.RealH265VPS, esgen.RealH265SPS, esgen.RealH265PPS}
+			slice = []byte{0x02, 0x01, 0xd0, 0x81, 0x82}
+			agg = rtppack.H265AP
+		}
+		for _, real := range reals {
+			codec, real := codec, real
+			typ := codec.NalType(real)
+			t.Run(fmt.Sprintf("%s/type%d", codec, typ), func(t *testing.T) {
+				t.Parallel()
+				var units []hostile
+				for n := 1; n < len(real); n++ {
+					units = append(units, hostile{fmt.Sprintf("cut-to-%d", n), real[:n]})
+				}
+				for o := codec.HeaderLen(); o < len(real); o++ {
+					bits := []byte{0x80}
+					if evid.Thorough() {
+						bits = []byte{0x80, 0x01, 0x10}
+					}
+					for _, bit := range bits {
+						b := append([]byte{}, real...)
+						b[o] ^= bit
+						units = append(units, hostile{fmt.Sprintf("byte%d-xor-%02x", o, bit), b})
+					}
+				}
+				for _, tail := range [][]byte{{0x00}, {0xff, 0xff}, {0x42, 0x00}} {
+					units = append(units, hostile{fmt.Sprintf("tiny-%d", codec.HeaderLen()+len(tail)), append(append([]byte{}, real[:codec.HeaderLen()]...), tail...)})
+				}
+				for _, u := range units {
+					carriers := []hostile{{"single", u.B}}
+					if len(u.B) >= codec.HeaderLen() {
+						carriers = append(carriers, hostile{"aggregate-with-slice", agg([][]byte{u.B, slice})})
+					}
+					for _, cr := range carriers {
+						for _, where := range []string{"first-packet", "later", "later-no-sprop"} {
+							evid.Eval(1)
+							c := &caseSpec{Codec: codec.String(), Audio: true, CacheGop: true, NoSprop: where == "later-no-sprop"}
+							c.Class = fmt.Sprintf("hostile-parameter-set-enum:type%d:%s:%s:%s", typ, u.Name, cr.Name, where)
+							c.Prefix = plainPrefix(codec, true, 2, 90000)
+							c.Pos = len(c.Prefix)
+							if where == "first-packet" {
+								c.Pos = 0
+							}
+							c.Hostile = []pkt{mkPkt(rtp.ChannelVideo, mediaPacket(96, true, 777, 90000+probeStep, cr.B), c.Class)}
+							planProbe(c)
+							record(c, judge(t, "enum-hostile-parameter-set", c), "enum-hostile-ps")
+						}
+					}
+				}
+			})
+		}
+	}
+}
